@@ -78,15 +78,8 @@ def check(ctx, config, rule):
             clause('Drain::drop', 'the length is restored exactly when tail_len > 0', ('lt', C(0), TL) in fs or ('ne', C(0), TL) in fs or ('ne', TL, C(0)) in fs)
         if cp and sl:
             # the move may be skipped only when tail_start == len
-            g = I.cfg(b)
             bad = []
-            for e in ev:
-                if e.kind != 'branch':
-                    continue
-                tgt = e.extra['target']
-                reach = g.reach([tgt])
-                if cp[0].top_block() in reach or sl[0].top_block() not in reach or not g.can_reach(e.top_block(), cp[0].top_block()):
-                    continue
+            for e in arena.bypass_edges(I, r, ev, cp[0], sl[0]):
                 fs = [tuple(fold(x) if isinstance(x, tuple) else x for x in f) for f in e.extra['added']]
                 if not any(f in (('eq', TS, LEN), ('eq', LEN, TS)) for f in fs):
                     bad.append(fs)
